@@ -649,8 +649,10 @@ def _sym_rows(table, cls=None):
 
 
 def binding_structure_diff(before: str, after: str):
-    """None when `after` is `before` with identifiers renamed by one injective map (same scopes, same
-    symbols with the same flags, in the same order); otherwise a description."""
+    """None when `after` is `before` up to a capture-free renaming: same tree of scopes; in every scope
+    the symbols correspond one to one, in order, with the same binding flags; a free variable is renamed
+    like the local of the enclosing function it resolves to; all global references of one name are
+    renamed alike and different globals stay different.  Otherwise a description."""
     try:
         ta = symtable.symtable(before, "<a>", "exec")
     except SyntaxError:
@@ -659,43 +661,85 @@ def binding_structure_diff(before: str, after: str):
         tb = symtable.symtable(after, "<b>", "exec")
     except SyntaxError as e:
         return f"the output does not compile: {e}"
-    rho, inv = {}, {}
+    gmap, ginv = {}, {}
 
-    def bind(x, y):
-        if rho.setdefault(x, y) != y:
-            return f"identifier {x!r} becomes both {rho[x]!r} and {y!r}"
+    def bind(m, inv, x, y, where):
+        if m.setdefault(x, y) != y:
+            return f"{where}: identifier {x!r} becomes both {m[x]!r} and {y!r}"
         if inv.setdefault(y, x) != x:
-            return f"identifiers {inv[y]!r} and {x!r} both become {y!r}"
+            return f"{where}: identifiers {inv[y]!r} and {x!r} both become {y!r}"
         return None
 
-    def walk(a, b, ca=None, cb=None):
+    def walk(a, b, stack, ca=None, cb=None):
         if a.get_type() != b.get_type():
             return f"scope kinds differ: {a.get_type()} / {b.get_type()}"
-        if a.get_name() != "top":
-            d = bind(a.get_name(), b.get_name())
-            if d:
-                return d
-        if str(a.get_type()).endswith("class"):
+        is_class = str(a.get_type()).endswith("class")
+        is_top = a.get_name() == "top" and not stack
+        if is_class:
             ca, cb = a.get_name(), b.get_name()
         ra, rb = _sym_rows(a, ca), _sym_rows(b, cb)
         if len(ra) != len(rb):
-            return f"scope {a.get_name()!r}: {len(ra)} symbols before, {len(rb)} after ({[r[0] for r in ra]} / {[r[0] for r in rb]})"
+            return (f"scope {a.get_name()!r}: {len(ra)} symbols before, {len(rb)} after "
+                    f"({[r[0] for r in ra]} / {[r[0] for r in rb]})")
+        local, linv = {}, {}
+        where = f"scope {a.get_name()!r}"
         for (na, fa), (nb, fb) in zip(ra, rb):
             if fa != fb:
-                return f"scope {a.get_name()!r}: symbol {na!r}->{nb!r} changes its binding flags"
-            d = bind(na, nb)
+                return f"{where}: symbol {na!r}->{nb!r} changes its binding flags"
+            d = bind(local, linv, na, nb, where)
             if d:
                 return d
+            is_local, is_global, _p, is_free = fa[0], fa[1], fa[2], fa[3]
+            if is_top or is_global:
+                d = bind(gmap, ginv, na, nb, "global names")
+                if d:
+                    return d
+            elif is_free:
+                for outer in reversed(stack):
+                    if na in outer:
+                        if outer[na] != nb:
+                            return f"{where}: free variable {na!r} becomes {nb!r} but its binding becomes {outer[na]!r}"
+                        break
         ka, kb = a.get_children(), b.get_children()
         if len(ka) != len(kb):
-            return f"scope {a.get_name()!r}: number of nested scopes differs"
+            return f"{where}: number of nested scopes differs"
         for x, y in zip(ka, kb):
-            d = walk(x, y, ca, cb)
+            # the name of a nested scope is a symbol of this scope
+            nx, ny = _unmangle(x.get_name(), ca), _unmangle(y.get_name(), cb)
+            if nx in local and local[nx] != ny and x.get_type() == y.get_type() and str(x.get_type()).endswith(("function", "class")) \
+                    and nx not in ("lambda", "listcomp", "setcomp", "dictcomp", "genexpr"):
+                return f"{where}: nested scope {nx!r} becomes {ny!r} but the symbol becomes {local[nx]!r}"
+            # class scopes are invisible to the scopes nested in them
+            d = walk(x, y, stack if is_class else stack + [local], ca, cb)
             if d:
                 return d
         return None
 
-    return walk(ta, tb)
+    return walk(ta, tb, [])
+
+
+ORACLE_SELFTEST = [
+    # (before, after, must be accepted)
+    ("x = 1\ny = 2\nprint(x, y)\n", "X = 1\nY = 2\nprint(X, Y)\n", True),
+    ("x = 1\ny = 2\nprint(x, y)\n", "x = 1\nx = 2\nprint(x, x)\n", False),                     # two names merged
+    ("def f():\n    a = 1\n    def g():\n        return a\n    return g()\n",
+     "def f():\n    b = 1\n    def g():\n        return a\n    return g()\n", False),           # reference left behind
+    ("def f():\n    a = 1\n    def g():\n        return a\n    return g()\n",
+     "def _f():\n    b = 1\n    def g():\n        return b\n    return g()\n", True),
+    ("b = 1\ndef f():\n    a = 2\n    def g():\n        return b\n    return g() + a\n",
+     "b = 1\ndef f():\n    b = 2\n    def g():\n        return b\n    return g() + b\n", False),   # global captured
+    ("class K:\n    def m(self):\n        return 1\nclass L:\n    def m(self):\n        return 2\n",
+     "class K:\n    def m(self):\n        return 1\nclass L:\n    def n(self):\n        return 2\n", True),
+    ("x = 1\ndef f():\n    global x\n    x = 2\n", "X = 1\ndef f():\n    global x\n    x = 2\n", False),
+    ("def f(p):\n    return p\n", "def f(p):\n    return q\n", False),
+]
+
+
+def oracle_selftest():
+    for before, after, ok in ORACLE_SELFTEST:
+        d = binding_structure_diff(before, after)
+        if (d is None) != ok:
+            raise RuntimeError(f"binding-structure oracle self-test failed: {before!r} / {after!r}: {d!r}")
 
 
 def oracle(mods, rule: str, src: str, structure: bool):
@@ -1114,6 +1158,7 @@ def check(run: common.Run):
             disagreements.append(("align", dict(source=src, problem="transactions are not the groups by new name")))
 
     # ---- D. deterministic sweep of the property oracle + fixed witnesses + known findings
+    oracle_selftest()
     kf = common.load_findings(PID)
     failures, known_hits = [], {}
     n_sweep = 0
